@@ -978,6 +978,13 @@ impl<Writer: Write> Muxer<Writer> {
 
     /// Simple video encoding method.
     pub fn encode_video(&mut self, data: &[u8], duration_ms: u32) -> Result<(), MuxerError> {
+        // Report empty input through the return value like write_video() does;
+        // keyframe detection below requires non-empty data.
+        if data.is_empty() {
+            return Err(MuxerError::EmptyVideoFrame {
+                frame_index: self.video_frame_count,
+            });
+        }
         let pts = self.current_video_pts;
         let is_keyframe = self.is_keyframe(data);
         self.write_video(pts, data, is_keyframe)?;
@@ -1009,14 +1016,17 @@ impl<Writer: Write> Muxer<Writer> {
         match self.video_track.codec {
             VideoCodec::H264 => {
                 // Check for IDR NAL (type 5)
-                let has_idr = AnnexBNalIter::new(data).any(|nal| (nal[0] & 0x1f) == 5);
+                let has_idr = AnnexBNalIter::new(data)
+                    .any(|nal| nal.first().map(|b| (b & 0x1f) == 5).unwrap_or(false));
                 has_idr
             }
             VideoCodec::H265 => {
                 // Check for IDR NAL (type 19-21)
                 let has_idr = AnnexBNalIter::new(data).any(|nal| {
-                    let nal_type = (nal[0] >> 1) & 0x3f;
-                    (19..=21).contains(&nal_type)
+                    // Empty NAL units (two adjacent start codes) carry no type
+                    nal.first()
+                        .map(|b| (19..=21).contains(&((b >> 1) & 0x3f)))
+                        .unwrap_or(false)
                 });
                 has_idr
             }
@@ -1039,8 +1049,9 @@ impl<Writer: Write> Muxer<Writer> {
                 let is_key = is_vp9_keyframe(data).unwrap_or(false);
 
                 // INV-104: VP9 keyframe detection must handle invalid frames gracefully
+                // (a frame shorter than the 3-byte marker is never detected as a keyframe)
                 assert_invariant!(
-                    is_key || data.len() >= 3,
+                    !is_key || data.len() >= 3,
                     "VP9 keyframe detection requires minimum frame size",
                     "api::is_keyframe::vp9"
                 );
